@@ -138,6 +138,27 @@ def gen_sctp():
     _need(r"let\s+byte_based\s*=\s*self\.local_rwnd\.saturating_sub\(used\)\s*;", body, "advertised_rwnd: byte-based window")
     _need(r"byte_based\.try_into\(\)\.unwrap_or\(0\)", body, "advertised_rwnd: u32 conversion")
 
+    # ---- handle_reconfig: the parameter walk (value WITHOUT padding, padding skipped separately)
+    _, _, body = find_fn(src, "handle_reconfig", "SctpInner")
+    _need(r"while\s+buf\.remaining\(\)\s*>=\s*4\s*\{\s*let\s+param_type\s*=\s*buf\.get_u16\(\)\s*;\s*let\s+param_length\s*=\s*buf\.get_u16\(\)\s+as\s+usize\s*;",
+          body, "handle_reconfig: parameter header")
+    mm = _need(r"if\s+param_length\s*<\s*(\d+)\s*\|\|\s*buf\.remaining\(\)\s*<\s*param_length\s*-\s*(\d+)\s*\{\s*break\s*;\s*\}\s*"
+               r"let\s+param_data\s*=\s*buf\.split_to\(param_length\s*-\s*(\d+)\)\s*;", body, "handle_reconfig: length test and value split")
+    if len({mm.group(1), mm.group(2), mm.group(3)}) != 1:
+        raise Untranslatable("handle_reconfig: inconsistent parameter header lengths %r" % (mm.groups(),))
+    m.raw("Definition RECONFIG_PARAM_HEADER_LEN : Z := %s." % mm.group(1), "handle_reconfig parameter header length", SCTP)
+    _need(r"let\s+padding\s*=\s*\(4\s*-\s*\(param_length\s*%\s*4\)\)\s*%\s*4\s*;\s*if\s+buf\.remaining\(\)\s*>=\s*padding\s*\{\s*buf\.advance\(padding\)\s*;\s*\}",
+          body, "handle_reconfig: padding skipped after the value")
+    _need(r"RECONFIG_PARAM_OUTGOING_SSN_RESET\s*=>\s*\{\s*self\.handle_reconfig_outgoing_ssn_reset\(param_data\)", body,
+          "handle_reconfig: the SSN reset handler gets the unpadded value")
+    _, _, body = find_fn(src, "handle_reconfig_outgoing_ssn_reset", "SctpInner")
+    mm = _need(r"if\s+buf\.remaining\(\)\s*<\s*(\d+)\s*\{\s*return\s+Ok\(\(\)\)\s*;", body, "handle_reconfig_outgoing_ssn_reset: fixed fields")
+    m.raw("Definition SSN_RESET_FIXED_LEN : Z := %s." % mm.group(1), "handle_reconfig_outgoing_ssn_reset fixed field length", SCTP)
+    _need(r"while\s+buf\.remaining\(\)\s*>=\s*2\s*\{\s*streams\.push\(buf\.get_u16\(\)\)\s*;", body, "handle_reconfig_outgoing_ssn_reset: stream list")
+    _need(r"if\s+request_sn\s*<=\s*last_peer_sn\s*&&\s*last_peer_sn\s*!=\s*u32::MAX\s*\{", body, "handle_reconfig_outgoing_ssn_reset: duplicate request test")
+    _need(r"if\s+streams\.is_empty\(\)\s*\{\s*inbound\.clear\(\)\s*;\s*\}\s*else\s*\{\s*for\s+&sid\s+in\s+&streams\s*\{\s*inbound\.remove\(&sid\)\s*;", body,
+          "handle_reconfig_outgoing_ssn_reset: inbound stream reset")
+
     # ---- DataChannelOpen::unmarshal minimum length
     _, _, body = find_fn(dsrc, "unmarshal", "DataChannelOpen")
     mm = _need(r"if\s+buf\.remaining\(\)\s*<\s*(\d+)\s*\{", body, "DataChannelOpen::unmarshal: minimum length")
